@@ -57,7 +57,7 @@ theorem linkValidate_nil_parts (ctrlRoute : String) (m : Method) (h : linkValida
     let pathAttrs := m.annots.filter (·.name = "Path")
     let funcParams := (m.params.filter fun p => !isContextType p.type).map (·.name)
     -- every {name} of the FULL route (controller prefix + method route) is referenced by a @Path (by alias or by name)
-    (∀ p ∈ urlParams, (pathAttrs.map fun a => match aliasOf a with | .ok v => v | _ => a.value).contains p = true) ∧
+    (∀ p ∈ urlParams, (pathAttrs.map refName).contains p = true) ∧
     -- every @Path names a parameter, carries a well-typed alias, and a non-empty alias is a {name} of the route
     (∀ a ∈ pathAttrs, funcParams.contains a.value = true ∧ aliasOf a ≠ .bad ∧
         ∀ al, aliasOf a = .ok al → al ≠ "" → urlParams.contains al = true) ∧
@@ -125,11 +125,11 @@ theorem link_injective (ctrlRoute : String) (m : Method) (h : linkValidate ctrlR
   refine ⟨(goUrl_nodup _ _ _ h1).1, (goPath_names_nodup _ _ _ [] [] [] h2).1, ?_, ?_⟩
   · intro p hp hne
     have hc := hurl p hp
-    have hm : p ∈ (m.annots.filter (·.name = "Path")).map fun a => match aliasOf a with | .ok v => v | _ => a.value := by
-      simpa using hc
+    have hm : p ∈ (m.annots.filter (·.name = "Path")).map refName := List.contains_iff_mem.1 hc
     obtain ⟨a, ha, hap⟩ := List.mem_map.1 hm
     refine List.mem_map.2 ⟨a, ha, ?_⟩
     unfold urlName
+    unfold refName at hap
     cases hal : aliasOf a with
     | none => rw [hal] at hap; exact hap
     | bad => rw [hal] at hap; exact hap
